@@ -341,23 +341,29 @@ fn check_format(text: &str, parsed: &Parsed, obs: &mut Obs, ctx: &Value) {
     }
 }
 
-/// Stable part of a difference description: the path without indices, without values.
+/// Stable part of a difference description: the field (or list) where the two values part, and
+/// the kind of node found there - no indices, no values.
 fn diff_signature(d: &str) -> String {
-    let path = d.split(": ").next().unwrap_or(d);
-    let mut out = String::new();
+    let (path, rest) = d.split_once(": ").unwrap_or((d, ""));
+    let mut clean = String::new();
     let mut skip = false;
     for c in path.chars() {
         match c {
             '[' => skip = true,
             ']' => skip = false,
-            _ if !skip => out.push(c),
+            _ if !skip => clean.push(c),
             _ => {}
         }
     }
-    // keep the innermost two components
-    let parts: Vec<&str> = out.split('.').collect();
-    let n = parts.len();
-    parts[n.saturating_sub(2)..].join(".")
+    let last = clean.rsplit(['.', ':']).next().unwrap_or("");
+    let what = if rest.contains(" elements vs ") {
+        "length"
+    } else {
+        rest.split(|c: char| !c.is_alphabetic())
+            .find(|w| !w.is_empty() && *w != "vs")
+            .unwrap_or("")
+    };
+    format!("{last} {what}").trim().to_string()
 }
 
 // ------------------------------------------------------------------------------------------
